@@ -92,7 +92,7 @@ def cylinder_aabb(cylinder2origin, radius, length):
     # AABB of a cylinder is the same as the AABB of its caps,
     # see https://iquilezles.org/articles/diskbbox/
     axis = cylinder2origin[:3, 2]
-    extent = 0.5 * length * np.abs(axis) + radius * np.sqrt(1.0 - axis * axis)
+    extent = 0.5 * length * np.abs(axis) + radius * _sine_to_axes(axis)
     return cylinder2origin[:3, 3] - extent, cylinder2origin[:3, 3] + extent
 
 
@@ -170,7 +170,7 @@ def disk_aabb(center, radius, normal):
     maxs : array, shape (3,)
         Maximum coordinates.
     """
-    e = radius * np.sqrt(1.0 - normal * normal)
+    e = radius * _sine_to_axes(normal)
     return center - e, center + e
 
 
@@ -198,9 +198,19 @@ def cone_aabb(cone2origin, radius, height):
     """
     pa = cone2origin[:3, 3]
     pb = cone2origin[:3, 3] + height * cone2origin[:3, 2]
-    a = pb - pa
-    e = np.sqrt(1.0 - a * a / (height * height))
+    e = _sine_to_axes(cone2origin[:3, 2])
     return np.minimum(pa - e * radius, pb), np.maximum(pa + e * radius, pb)
+
+
+def _sine_to_axes(unit_vector):
+    """Sine of the angle between a unit vector and each coordinate axis.
+
+    Computed as norm of the other two components, which does not cancel
+    (or become negative) when the vector is almost parallel to an axis like
+    sqrt(1 - v_i^2) does.
+    """
+    sq = unit_vector * unit_vector
+    return np.sqrt(np.array([sq[1] + sq[2], sq[0] + sq[2], sq[0] + sq[1]]))
 
 
 def ellipse_aabb(center, axes, radii):
